@@ -1,18 +1,34 @@
 (* C15 — Integer intervals inferred from a regex are exactly the numbers it matches; compressing a
    regex concatenation keeps its language.
    Only statements + `exact`; models: Smt/Intervals.v (merge, compress, nifr), semantics Smt/IvRe.v
-   (matches), spec and proofs: Smt/IntervalsFacts.v, Smt/IvCompressFacts.v.
+   (matches), spec and proofs: Smt/IntervalsFacts.v, Smt/IvCompressFacts.v, and (proof extension)
+   Smt/IvReFacts.v (matcher), Smt/IvCompressLang.v (language of compress), Smt/IvConcatFacts.v +
+   Smt/IvConcatSound.v (concatenation case of the intervals).
 
    FULL STATEMENT (kept visible; refuted as it stands, see the _refuted theorems):
      forall r fuel ivs n, documented_shapeb r = true -> nifr true fuel r = Val (Some ivs) ->
        (In_ivs n ivs <-> exists s, matches r s /\ intval s = Some n).
-   Proved below: both halves on the concatenation-free part of the documented shape (`basic`:
-   <single> <range> <zeroes> <full> <union>), the exact half under the guard ~K_full_sign, the
-   over-approximation half without guard.  NOT proved (stated here, covered only by the
-   correspondence + search of harness/c15.py): the over-approximation half for <sequence>
-   (concatenations), i.e.
-     recognizedb r = true -> nifr q fuel r = Val (Some ivs) -> matches r s -> intval s = Some n -> In_ivs n ivs. *)
+   FULL (proved for all inputs):
+     * merge_intervals (membership, separation, well-formedness);
+     * compress_concatenation_elements never asserts AND keeps the language of the concatenation
+       (C15_compress_lang, C15_compress_lang_re);
+     * the derivative matcher is the declarative semantics (C15_matchb_spec) — the matcher that the harness
+       ties to Z3's InRe is no longer trusted separately.
+   PARTIAL:
+     * over-approximation half (every integer value of a matched string lies in the intervals), now for the
+       WHOLE recognised vocabulary — concatenations included: flattening, Range(c,c) rewriting, compression,
+       sign prefix -/+/Option(sign), union distribution, zero stripping, the three [1-9][0-9]* cases —
+       for both values of q and any fuel, under the guard  K_inner_sign r = false
+       (C15_intervals_overapprox_concat_partial).  The guard is NEEDED: the unguarded statement
+         recognizedb r = true -> nifr q fuel r = Val (Some ivs) -> matches r s -> intval s = Some n -> In_ivs n ivs
+       is FALSE of the model and of the code (C15_intervals_overapprox_refuted: a union that carries a sign and
+       evaluates to [(0,0)] is stripped as zero padding).  Missing: the inputs with an inner sign for which the
+       half still holds (e.g. Concat(Re 0, Concat(Re -, Range 1 9))) — a tighter guard would have to follow the
+       flattening of union alternatives.
+     * exactness on the concatenation-free shape under ~K_full_sign (as before); exactness for concatenations
+       is not proved (and refuted for K_full_sign / K_inner_sign). *)
 From ISLA Require Import Str Outcome IvRe Intervals IvShape IntervalsFacts IvCompressFacts.
+From ISLA Require Import IvReFacts IvCompressLang IvConcatFacts IvConcatSound.
 From Coq Require Import List ZArith.
 Import ListNotations.
 
@@ -85,5 +101,44 @@ Theorem C15_compress_no_assert : forall l, exists r, compress l = Ok r.
 Proof. exact compress_no_assert. Qed.
 Print Assumptions C15_compress_no_assert.
 
-(* NOT proved (stated; covered by the correspondence and the language search of harness/c15.py):
-   C15_compress_lang : forall l r, compress l = Ok r -> forall s, matches_cat r s <-> matches_cat l s. *)
+(* ---- compress_concatenation_elements keeps the language (k k* = k+, k* k* = k*, k+ k* = k+, commutation
+        inside a groupby group); hypothesis non-vacuous by C15_compress_no_assert, example compress_example ---- *)
+Theorem C15_compress_lang : forall l r, compress l = Ok r -> forall s, matches_cat r s <-> matches_cat l s.
+Proof. exact compress_lang. Qed.
+Print Assumptions C15_compress_lang.
+
+(* the same on the regular expressions z3.Concat( *elements ) (cat_re: left-nested concatenation) *)
+Theorem C15_compress_lang_re : forall l r, compress l = Ok r ->
+  forall s, matches (cat_re r) s <-> matches (cat_re l) s.
+Proof. exact compress_lang_re. Qed.
+Print Assumptions C15_compress_lang_re.
+
+(* ---- the executable derivative matcher (tied to Z3 InRe by the harness) is the declarative semantics ---- *)
+Theorem C15_matchb_spec : forall r s, matchb r s = true <-> matches r s.
+Proof. exact matchb_spec. Qed.
+Print Assumptions C15_matchb_spec.
+
+(* ---- intervals: over-approximation half INCLUDING concatenations, whole recognised vocabulary (a superset of
+        the documented shape), both q, any fuel; partial: guard ~K_inner_sign.  Non-vacuity: overapprox_example
+        (optional minus, zero padding, [1-9], digits) in Smt/IvConcatSound.v ---- *)
+Theorem C15_intervals_overapprox_concat_partial : forall q r fuel ivs s n,
+  recognizedb r = true -> K_inner_sign r = false -> nifr q fuel r = Val (Some ivs) ->
+  matches r s -> intval s = Some n -> In_ivs n ivs.
+Proof. exact recognized_overapprox. Qed.
+Print Assumptions C15_intervals_overapprox_concat_partial.
+
+(* the same with the documented-shape recogniser as hypothesis *)
+Theorem C15_intervals_overapprox_documented_partial : forall q r fuel ivs s n,
+  documented_shapeb r = true -> K_inner_sign r = false -> nifr q fuel r = Val (Some ivs) ->
+  matches r s -> intval s = Some n -> In_ivs n ivs.
+Proof. exact documented_overapprox. Qed.
+Print Assumptions C15_intervals_overapprox_documented_partial.
+
+(* the guard is needed: inside documented_shapeb, with an inner sign, the half fails (repaired and unrepaired code):
+   Concat(Star(Re 0), Union(Concat(Re -, Re 0), Re 0), Re 5) |-> [(5,5)], matches "-05" *)
+Theorem C15_intervals_overapprox_refuted :
+  exists r ivs s n, documented_shapeb r = true /\ K_inner_sign r = true /\ K_signed_zero r = false /\
+                    nifr_top true r = Val (Some ivs) /\ nifr_top false r = Val (Some ivs) /\
+                    matches r s /\ intval s = Some n /\ ~ In_ivs n ivs.
+Proof. exact inner_sign_overapprox_refuted. Qed.
+Print Assumptions C15_intervals_overapprox_refuted.
